@@ -1221,7 +1221,7 @@ func runHistory(r *rng.R, id, maxBlocks int, wo, wi *bufio.Writer) {
 				next = append(next, govTypes.ACLPair{Key: p.Key, Addr: a})
 				parts = append(parts, hx([]byte(p.Key))+"="+hx(a))
 			}
-			if len(next) > 0 && h.r.Chance(1, 3) { // the same key a second time, further down, with another address: the FIRST entry owns
+			if len(next) > 0 && h.r.Chance(1, 2) { // the same key a second time, further down, with another address: the FIRST entry owns
 				p := next[h.r.Intn(len(next))]
 				a := h.keys[h.r.Intn(3)].addr
 				next = append(next, govTypes.ACLPair{Key: p.Key, Addr: a})
@@ -1509,7 +1509,7 @@ func runHistory(r *rng.R, id, maxBlocks int, wo, wi *bufio.Writer) {
 			h.reqs = append(h.reqs, request{kind: "TX", tx: bz, resA: deliverString(res), acl: res.Code == 0 && strings.Contains(t.spec, ":acl:")})
 			stats[fmt.Sprintf("tx/%s/%s:%d", strings.SplitN(t.spec, ":", 2)[0], res.Codespace, res.Code)]++
 			// right after an accepted hand-over, in the same block: the previous owner must be refused, the next one accepted
-			if res.Code == 0 && strings.Contains(t.spec, ":acl:") && len(h.handover)+len(h.dupho) > 0 && r.Chance(4, 5) {
+			if res.Code == 0 && strings.Contains(t.spec, ":acl:") && len(h.handover)+len(h.dupho) > 0 && (r.Chance(4, 5) || len(h.dupho) > 0) {
 				var cands []paramChoice
 				var who [][3]string
 				list := h.handover
